@@ -91,7 +91,11 @@ func (e *Environment) BaseInfo() *BigMap {
 
 func (e *Environment) Info() Object {
 	allKeys := make([]Object, e.depth)
-	info := e.BaseInfo()
+	// A map of its own for each evaluation of info: a value already bound (a = info) must not change when
+	// info is evaluated again. The base entries (the big arrays of names) are shared, they never change.
+	base := e.BaseInfo()
+	info := &BigMap{kv: make([]keyValuePair, len(base.kv), len(base.kv)+2)}
+	copy(info.kv, base.kv)
 	for {
 		keys := make([]string, 0, len(e.store))
 		for k := range e.store {
